@@ -2816,6 +2816,8 @@ package decimal128
 //@ ensures SHORT && sign(d) ==> out[0] == 45
 //@ ensures SHORT ==> pst(VB, VL) == 1 || pst(VB, VL) == 5 || pst(VB, VL) == 9
 //@ ensures SHORT && coef(d) != 0 ==> rs(V, 6176 + VEXPO) == real(dv(VB, VL))
+//@ ensures SHORT ==> len(out) >= 1 + VS && len(out) <= 20000 && 48 <= out[VS] && out[VS] <= 57
+//@ ensures SHORT && coef(d) == 0 ==> dv(VB, VL) == 0
 //@ props C06 C07 C20
 
 // digits.fmtE (C06, C07), the exponent field only: after the mantissa the output carries the letter
@@ -2902,6 +2904,9 @@ package decimal128
 //@ apply before "buf = d.pad(buf, start, width, printSign, padSign, padRight, padZero)": dv_copy(PB, DG, 0, 0, ite(NN >= 1, 1, 0))
 //@ apply before "buf = d.pad(buf, start, width, printSign, padSign, padRight, padZero)": dv_copy(PB, DG, ite(DOT, 2, 0), ite(DOT, 1, 0), ite(DOT, NN + 1, 0))
 //@ apply before "buf = d.pad(buf, start, width, printSign, padSign, padRight, padZero)": exp_run(PB, ite(JSE, XM + 2, 0), ite(JSE, TL, 0))
+//@ assert before "buf = d.pad(buf, start, width, printSign, padSign, padRight, padZero)": JSE && NN == 0 && prec <= 0 ==> XM == 1 && dv(PB, 1) == 0 && pst(PB, 1) == 1
+//@ assert before "buf = d.pad(buf, start, width, printSign, padSign, padRight, padZero)": JSE && NN == 0 && prec <= 0 ==> dv(PB, XM + 2) == 0 && pst(PB, XM + 2) == 8
+//@ assert before "buf = d.pad(buf, start, width, printSign, padSign, padRight, padZero)": JSE && NN == 0 && prec <= 0 ==> dv(PB, TL) == 0
 //@ assert before "buf = d.pad(buf, start, width, printSign, padSign, padRight, padZero)": JSE && SPE ==> dv(PB, XM) == hv(DG, NN) && nfd(PB, XM) == NN - 1 && ev(PB, XM) == 0 && esg(PB, XM) == 0
 //@ assert before "buf = d.pad(buf, start, width, printSign, padSign, padRight, padZero)": JSE && SPE ==> dv(PB, XM + 2) == hv(DG, NN) && nfd(PB, XM + 2) == NN - 1 && ev(PB, XM + 2) == 0 && esg(PB, XM + 2) == ite(AX < 0, 1, 0) && pst(PB, XM + 2) == 8
 //@ assert before "buf = d.pad(buf, start, width, printSign, padSign, padRight, padZero)": JSE && SPE ==> dv(PB, TL) == hv(DG, NN) && nfd(PB, TL) == NN - 1 && esg(PB, TL) == ite(AX < 0, 1, 0)
@@ -2910,6 +2915,7 @@ package decimal128
 //@ define OB = from(out, SL)
 //@ define OL = (len(out) - SL)
 //@ ensures JSE && width == 0 && SPE ==> dv(OB, OL) == hv(DG, NN) && nfd(OB, OL) == NN - 1 && ev(OB, OL) == AE && esg(OB, OL) == ite(AX < 0, 1, 0)
+//@ ensures JSE && width == 0 && NN == 0 && prec <= 0 ==> dv(OB, OL) == 0
 //@ props C06 C07 C20
 
 // ---------------------------------------------------------------------------------------------
@@ -3204,6 +3210,8 @@ package decimal128
 //@ ensures SHORT && sign(d) ==> s[0] == 45
 //@ ensures SHORT ==> pst(VB, VL) == 1 || pst(VB, VL) == 5 || pst(VB, VL) == 9
 //@ ensures SHORT && coef(d) != 0 ==> rs(V, 6176 + VEXPO) == real(dv(VB, VL))
+//@ ensures SHORT ==> len(s) >= 1 + VS && len(s) <= 20000 && 48 <= s[VS] && s[VS] <= 57
+//@ ensures SHORT && coef(d) == 0 ==> dv(VB, VL) == 0
 //@ props C06 C20
 
 // Decimal.Append (C07): an unusable format specification yields "%!(NOVERB)"; special values go
@@ -3779,3 +3787,41 @@ package decimal128
 //@ ensures !special(r1) && coef(r1) == 0 ==> coef(r2) == 0
 //@ ensures !special(r1) && coef(r1) != 0 ==> rs(V2, bexp(r1)) == coef(r1) && rs(V2, bexp(r2)) == coef(r2)
 //@ props C08
+
+// Parse(Format(d, verb, -1)) is Equal to d with d's sign for the verbs e, E, g, G (C06).
+//@ func verifFormatParse
+//@ returns (v, err, eq)
+//@ logical V real
+//@ requires DefaultRoundingMode <= 5 && (verb == 101 || verb == 69 || verb == 103 || verb == 71)
+//@ requires !special(d) ==> V >= 0 && rs(V, bexp(d)) == coef(d)
+//@ call Format#1: V = V
+//@ call Parse#1: V = V
+//@ ensures isnan(d) ==> tag(err) == 0 && isnan(v)
+//@ ensures isinf(d) ==> tag(err) == 0 && isinf(v) && sign(v) == sign(d)
+//@ ensures !special(d) ==> tag(err) == 0 && !special(v) && sign(v) == sign(d)
+//@ ensures !special(d) ==> rs(V, bexp(v)) == coef(v)
+//@ ensures !isnan(d) ==> eq
+//@ uses order=file
+//@ define E = bexp(d)
+//@ define C = coef(d)
+//@ define XE = bexp(v)
+//@ define XC = coef(v)
+//@ define RM = DefaultRoundingMode
+//@ define FIN = (!special(d) && !special(v) && C != 0)
+//@ define LOW = (FIN && XE <= E)
+//@ define HIGH = (FIN && XE > E)
+//@ apply before "return v, err, eq" when {LOW}: rs_pw10n(V, XE, E - XE)
+//@ apply before "return v, err, eq" when {LOW}: pw10n_pos(E - XE)
+//@ assert before "return v, err, eq": LOW ==> rs(V, XE) == real(C * pw10(E - XE))
+//@ apply before "return v, err, eq" when {LOW}: rnd_exact_int(RM, sign(d), C * pw10(E - XE), XC, XE)
+//@ assert before "return v, err, eq": LOW ==> rs(V, XE) == XC
+//@ apply before "return v, err, eq" when {HIGH}: rs_pw10n(V, E, XE - E)
+//@ apply before "return v, err, eq" when {HIGH}: pw10n_step1(XE - E)
+//@ apply before "return v, err, eq" when {HIGH}: pw10n_pos(XE - E - 1)
+//@ apply before "return v, err, eq" when {HIGH}: scale_le(rs(V, XE), pw10(XE - E), C)
+//@ apply before "return v, err, eq" when {HIGH}: rnd_exact_frac(RM, sign(d), rs(V, XE), C, XC, XE)
+//@ assert before "return v, err, eq": HIGH ==> rs(V, XE) == XC
+//@ assert before "return v, err, eq": !special(d) && C == 0 ==> !special(v) && XC == 0 && rs(V, XE) == 0
+//@ assert before "return v, err, eq": !special(d) ==> !special(v) && rs(V, XE) == XC
+//@ apply before "return v, err, eq" when {FIN}: cmpmag_is_real_order(V, V, XC, XE, C, E)
+//@ props C06
